@@ -118,3 +118,10 @@ MUTS += [
   "old": "        let slice = &area.data[offset..min(offset + 15, area.data.len())];",
   "new": "        if offset + 15 > area.data.len() && area.data.len() >= 0x1000 {\n            return Err(self.collect_mem_error_hints(address, 15, \"Read executable\".to_string()));\n        }\n        let slice = &area.data[offset..min(offset + 15, area.data.len())];"},
 ]
+
+MUTS += [
+ # ---- 32-bit addressing reaching bit 31 (C05 via the HI32 page) ---------------------------------
+ {"name": "M33-a32-address-sign-extended", "breaks": "C05", "file": "src/helpers/operand.rs", "checks": ["C05"],
+  "old": "        if addr_size_32 {\n            addr &= 0xffff_ffff;\n        }",
+  "new": "        if addr_size_32 {\n            addr = addr as u32 as i32 as i64 as u64;\n        }"},
+]
